@@ -51,6 +51,8 @@ var c12Kinds = []string{
 	"vsettle:unknown-virtual", "vsettle:state-3parts", "vsettle:sigs-nil", "vsettle:other-id", "vsettle:twice",
 	// responses to a proposal of the victim that has already timed out, more of them than a receiver buffers
 	"presp:late-flood",
+	// an update of the victim could not be sent (connection fault); afterwards more answers for that version arrive than a receiver buffers
+	"uresp:flood-after-failed-send",
 	// sync
 	"sync:nil-state", "sync:current", "sync:unknown-channel", "sync:while-locked", "sync:phase-garbage",
 }
@@ -336,6 +338,39 @@ func (a *c12adv) send(step int, st *kernel.Step) bool {
 		}
 		time.Sleep(t.H.CtxTimeout + 2*time.Second) // the victim's opening attempt has timed out by now
 		kind = "sprop:funding-of"
+	}
+	if kind == "uresp:flood-after-failed-send" {
+		// a connection fault makes one outgoing update of the victim fail while
+		// it is being sent; the counterparty then answers that version many times
+		ch := t.chAH[1]
+		var failed uint64
+		t.w.Bus.FailSend = func(from, to string, e *wire.Envelope) bool {
+			u, ok := e.Msg.(*client.ChannelUpdateMsg)
+			if ok && from == "H" && to == "A" && u.State.ID == ch.ID() && failed == 0 {
+				failed = u.State.Version
+				return true
+			}
+			return false
+		}
+		err := t.payOn(t.H, ch, 1, false, 20*time.Second)
+		t.w.Bus.FailSend = nil
+		if failed == 0 {
+			return false // the update never reached the bus (the channel was busy or closed)
+		}
+		s.Note("victim's update v%d failed in send: %v", failed, err)
+		n := r.Range(17, 40)
+		for i := 0; i < n; i++ {
+			var m wire.Msg = &client.ChannelUpdateRejMsg{ChannelID: ch.ID(), Version: failed, Reason: "no"}
+			if r.Bool(0.5) {
+				m = &client.ChannelUpdateAccMsg{ChannelID: ch.ID(), Version: failed, Sig: r.Bytes(64)}
+			}
+			if t.w.Bus.Inject(&wire.Envelope{Sender: t.A.Wire, Recipient: t.H.Wire, Msg: m}, s.Delay(fmt.Sprintf("inject:%d:%d", step, i), 0, 100*time.Microsecond)) != nil {
+				return false
+			}
+		}
+		s.Count("fault.msg."+kind, 1)
+		s.Count("fault.update_responses_after_failed_send", int64(n))
+		return true
 	}
 	if kind == "presp:late-flood" {
 		// Z, to whom the victim proposed a channel, stays silent until the victim
